@@ -1012,7 +1012,152 @@ def c18(ctx):
     planted_errors(ctx, cases[:: (4 if ctx.quick else 1)], "c18", seeds[: (2 if ctx.quick else 4)])
 
 
+POSTFIX_TEXT = {"call": "()", "index": "[0]", "rindex": "[:]", "dot": ".p", "arrow": "->type"}
+
+
+def c08_text(toks):
+    """Token sequence of the specification -> (text, [(token index, column)])."""
+    out = ""
+    cols = []
+    for i, t in enumerate(toks):
+        k = t["k"]
+        if k == "post":
+            piece = POSTFIX_TEXT[t["p"]]
+            sep = ""
+        else:
+            piece = {"var": lambda: "x%d" % t["i"], "int": lambda: str(t["n"]), "op": lambda: t["op"],
+                     "lp": lambda: "(", "rp": lambda: ")"}[k]()
+            prev = toks[i - 1]["k"] if i else None
+            sep = "" if (i == 0 or prev == "lp" or k == "rp"
+                         or (prev == "op" and toks[i - 1]["op"] == "-" and k == "int" and
+                             (i == 1 or toks[i - 2]["k"] in ("op", "lp")))) else " "
+        out += sep
+        cols.append(len(out) + 1)
+        out += piece
+    return out, cols
+
+
+def c08_tree_of_ast(e):
+    t = e["t"]
+    if t == "binop":
+        return {"t": "bin", "op": e["op"], "l": c08_tree_of_ast(e["l"]), "r": c08_tree_of_ast(e["r"])}
+    if t == "range":
+        return {"t": "bin", "op": "..", "l": c08_tree_of_ast(e["start"]), "r": c08_tree_of_ast(e["end"])}
+    if t == "var":
+        return {"t": "var", "i": int(bytes(e["name"]).decode()[1:])}
+    if t == "int":
+        return {"t": "int", "n": e["n"]}
+    if t == "call" and not e["args"]:
+        return {"t": "post", "p": "call", "e": c08_tree_of_ast(e["f"])}
+    if t == "index":
+        return {"t": "post", "p": "index", "e": c08_tree_of_ast(e["e"])}
+    if t == "rindex":
+        return {"t": "post", "p": "rindex", "e": c08_tree_of_ast(e["e"])}
+    if t == "prop":
+        return {"t": "post", "p": "arrow" if e["tp"] else "dot", "e": c08_tree_of_ast(e["e"])}
+    return {"t": "?" + t}
+
+
+def strip_par(t):
+    if isinstance(t, dict):
+        return {k: strip_par(v) for k, v in t.items() if k != "par"}
+    return t
+
+
+def c08(ctx):
+    mo = 3 if ctx.quick else 4
+    ctx.rule = ("every sequence of 1..%d operators over all 16 binary operators (15 + `..`) with plain operands; "
+                "sequences of 1-2 operators with one operand carrying each postfix form (call, index, range-index, "
+                ".name, ->name) or being a negative literal; every tree over those frontiers written out with only "
+                "the necessary parentheses; every placement of one redundant parenthesis pair; TLC checks "
+                "UniqueGrouping (the machine's result is the only WellGrouped tree), RoundTrip and RedundantParens "
+                "on every case, and the real parser's tree (AST dump) must equal the specification's tree, with "
+                "the operator positions; non-trivial = cases with >= 2 operators or a postfix / sign" % mo)
+    cfg = os.path.join(sv.scratch("cfg", clean=False), "MC_C08.cfg")
+    open(cfg, "w").write("INIT Init\nNEXT Next\nCONSTANTS\n  MaxOps = %d\nINVARIANTS\n  UniqueGrouping\n"
+                         "  RoundTrip\n  RedundantParens\n  EmitCase\n  EmitParens\n  EmitTrees\n"
+                         "CHECK_DEADLOCK FALSE\n" % mo)
+    rc, out = sv.tlc("MC_C08", cfg=cfg, timeout=3000, workers=16)
+    if not sv.tlc_ok(rc, out):
+        raise sv.ToolError("TLC on MC_C08 failed:\n" + sv.tlc_error_text(out))
+    st = sv.tlc_stats(out)
+    ctx.states += st["distinct"]
+    ctx.transitions += max(st["generated"], 1)
+    ctx.models["MC_C08"] = {"module": "MC_C08", "MaxOps": mo, "distinct_states": st["distinct"],
+                            "invariants": ["UniqueGrouping", "RoundTrip", "RedundantParens"]}
+    cases = sv.tagged(out, "CASE")
+    # unique by token sequence
+    seen = {}
+    for cse in cases:
+        seen.setdefault(json.dumps(cse["toks"]), cse)
+    cases = list(seen.values())
+    hooked = sv.build(True)
+    d = sv.scratch("c08")
+    B = 200
+    batches = [cases[i:i + B] for i in range(0, len(cases), B)]
+
+    def one(bi):
+        batch = batches[bi]
+        lines = []
+        for j, cse in enumerate(batch):
+            text, cols = c08_text(cse["toks"])
+            lines.append("r%d := %s" % (j, text))
+        fn = "b%d.sd" % bi
+        with open(os.path.join(d, fn), "w") as f:
+            f.write("\n".join(lines) + "\n")
+        evs, so, se, code = sv.dump(hooked, d, fn)
+        return sv.ast_of(evs), se
+    res = sv.pmap(one, list(range(len(batches))))
+    for bi, (ast, se) in enumerate(res):
+        batch = batches[bi]
+        if ast is None or len(ast) != len(batch):
+            # find the offending line by parsing the lines one by one
+            ctx.violation("the real parser rejected a generated expression (batch %d): %s"
+                          % (bi, se.decode(errors="replace")[:300]),
+                          script=open(os.path.join(d, "b%d.sd" % bi)).read())
+            continue
+        for j, cse in enumerate(batch):
+            ctx.evaluations += 1
+            ctx.validated += 1
+            text, cols = c08_text(cse["toks"])
+            if sum(1 for t in cse["toks"] if t["k"] in ("op", "post")) >= 2:
+                ctx.nontrivial.add(text)
+            got = c08_tree_of_ast(ast[j]["rhs"])
+            want = strip_par(cse["tree"])
+            if got != want:
+                ctx.violation("the real parser groups `%s` differently from the specification" % text,
+                              script="r := %s\n" % text, detail={"spec": want, "impl": got})
+                continue
+            # operator positions: every binary operator's position is where it was written
+            prefix = len("r%d := " % j)
+            want_ops = sorted(cols[i] + prefix for i, t in enumerate(cse["toks"])
+                              if t["k"] == "op" and not (t["op"] == "-" and i + 1 < len(cse["toks"])
+                                                         and cse["toks"][i + 1]["k"] == "int"
+                                                         and (i == 0 or cse["toks"][i - 1]["k"] in ("op", "lp"))))
+            got_ops = []
+
+            def walk(e):
+                if isinstance(e, dict):
+                    if e.get("t") == "binop":
+                        got_ops.append(e["oploc"][1])
+                    for v in e.values():
+                        walk(v)
+                elif isinstance(e, list):
+                    for v in e:
+                        walk(v)
+            walk(ast[j]["rhs"])
+            n_range = json.dumps(want).count('"op": ".."')
+            if sorted(got_ops) != [c for c in want_ops][: len(want_ops)] and n_range == 0:
+                ctx.violation("operator positions of `%s` differ" % text, script="r := %s\n" % text,
+                              detail={"expected_columns": want_ops, "got": sorted(got_ops)}, prop="C18")
+    for cse in cases[:: max(1, len(cases) // 3)][:3]:
+        ctx.sample({"text": c08_text(cse["toks"])[0], "tree": strip_par(cse["tree"])})
+    scripts = [s for s in repo_test_scripts() if "precedence" in s[0] or "operations" in s[0]]
+    corpus_validate(ctx, scripts, "c08tests")
+
+
 REGISTRY = {
+    "C08": c08,
     "C18": c18,
     "C15": c15,
     "C09": c09,
